@@ -1,7 +1,8 @@
-(* C08 — Built-in unpacking is transparent and byte-exact (RLE90 layer proved; the other codecs by differential). *)
+(* C08 — Built-in unpacking is transparent and byte-exact (proved: the RLE90 layer of ARC / ArcFS and compress(1) LZW with its bit
+   packing, width schedule and CLEAR codes; the other codecs by differential). *)
 From Coq Require Import ZArith List Lia Bool.
 Import ListNotations.
-From LX Require Import Model.Rle90 Proofs.Rle90Proofs.
+From LX Require Import Model.Rle90 Proofs.Rle90Proofs Model.Lzw Proofs.LzwBitsProofs Proofs.LzwCodesProofs.
 Local Open Scope Z_scope.
 
 (* For every byte string - any length, any content, runs of any length, the marker byte itself anywhere - the RLE90
@@ -18,4 +19,43 @@ Print Assumptions rle90_encode_emits_bytes.
 Example c08_nonvacuous :
   let l := [1; 144; 144; 144; 7] ++ repeat 9 600 ++ [144] in
   Nat.ltb (length (encode l)) (length l) = true /\ decode (encode l) = l /\ firstn 6 (encode l) = [1; 144; 0; 144; 3; 7] /\ decode [5; 144; 4; 144; 0; 144; 2] = [5; 5; 5; 5; 144; 144].
+Proof. vm_compute. repeat split; reflexivity. Qed.
+
+(* ---------------------------------------------------------------- compress (.Z) --------------------------------------- *)
+
+(* For every byte string, every maximum code width 10..16, block mode on or off and every placement of CLEAR codes the writer may
+   choose, the transcribed decrunch_compress (header check, bit reader with the width schedule and its group alignment, string
+   table with the KwKwK case, CLEAR) gives back exactly the bytes that were packed. *)
+Theorem uncompress_compress : forall p clears l, zparams_okb p = true -> bytesb l = true ->
+  uncompress (Lzw.compress p clears l) = Some l.
+Proof.
+  intros p clears l Hp Hl. apply uncompress_compress_from; [|exact Hp|exact Hl].
+  intros codes Hfit. apply unpack_of_compress_payload; [|exact Hfit].
+  unfold zparams_okb in Hp. apply andb_prop in Hp as [H1 H2]. apply Z.leb_le in H1. apply Z.leb_le in H2. lia.
+Qed.
+Print Assumptions uncompress_compress.
+
+(* the two halves it is made of: the code sequence survives the bit packing, and the table decoder inverts the greedy encoder *)
+Theorem lzw_bit_packing_lossless : forall p codes tailz fuel,
+  10 <= z_maxbits p <= 16 -> sched_fit p (w_init p) codes = true ->
+  Forall (fun b => b = false) tailz -> (length tailz < 8)%nat -> (2 * length codes + 2 <= fuel)%nat ->
+  unpack fuel p (w_init p) 0 (pack p (w_init p) 0 codes ++ tailz) = codes.
+Proof. exact unpack_pack. Qed.
+Print Assumptions lzw_bit_packing_lossless.
+
+Theorem lzw_codes_roundtrip : forall p clears l, zparams_okb p = true -> bytesb l = true ->
+  (exists s, dec_codes p (d_init p) (encode_codes p clears l) = Some s /\ rev (d_out s) = l) /\
+  sched_fit p (w_init p) (encode_codes p clears l) = true.
+Proof. intros. split; [apply dec_enc_codes | apply enc_codes_fit]; assumption. Qed.
+Print Assumptions lzw_codes_roundtrip.
+
+(* non-vacuity: a payload that makes the encoder use the KwKwK code and a CLEAR; a corrupt stream is refused *)
+Example c08_lzw_nonvacuous :
+  let p := {| z_maxbits := 12; z_block := true |} in
+  let l := [97; 97; 97; 97; 97; 97; 98; 97; 98; 97; 98; 97] in
+  zparams_okb p = true /\ bytesb l = true /\
+  encode_codes p [false; false; true] l = [97; 257; 258; 256; 98; 97; 257; 257] /\
+  Lzw.compress p [false; false; true] l = [31; 157; 140; 97; 2; 10; 4; 8; 0; 0; 0; 0; 98; 194; 4; 12; 8] /\
+  uncompress (Lzw.compress p [false; false; true] l) = Some l /\
+  uncompress [31; 157; 140; 97; 6; 10] = None.
 Proof. vm_compute. repeat split; reflexivity. Qed.
